@@ -43,6 +43,14 @@ pub fn scenarios() -> Vec<Scenario> {
         Scenario::new("C06", "medium", about, run_medium, 250, 12_000),
         Scenario::new("C06", "large", about, run_large, 30, 1_500),
     ];
+    v.push(Scenario::new(
+        "C06",
+        "fragments",
+        "TraceTable built by fill, by init and by fragments (fragment length and, under the simulated scheduler, fill order and worker count from the tape; some fragments filled twice, closures that leave part of the first row to the documented all-zero initial state): same rows",
+        crate::c01::fragments_scenario,
+        3_000,
+        200_000,
+    ));
     for s in v.iter_mut() {
         s.watchdog_s = 180;
     }
